@@ -116,14 +116,16 @@ CHECKS.update({
 
 CHECKS.update({
     'C15': dict(
-        technique='stateless DFS over all thread schedules with bounded preemptions (cooperative scheduler on the real FileCache at lock/file-operation granularity)',
+        technique='stateless DFS over all schedules with bounded preemptions of 2-3 callers (threads, and again as forked processes) of the real FileCache at lock/file-operation granularity',
         text='Two to three real callers of FileCache.get / get_or_compute (own cache instances, one directory, one key; forced writers overlapping readers; a late caller that starts '
              'after another has returned) run as real threads under a cooperative scheduler that owns every lock acquire/release, exists, open, read, truncating open, half-write, close, '
              'unlink and compute step. ALL schedules with <= 2 (quick) / 3-4 (thorough) preemptions are executed; per schedule: every call returns a value some completed computation produced '
              '(get may say NO_VALUE), nobody fails because of another\'s write, compute+save regions never overlap, the entry at quiescence is the last writer\'s complete value, a late '
              'caller does not recompute unless a write overlapped it, no deadlock. Whether an acquire is enabled is decided by a non-blocking probe of the real lock file as it is on disk (so unlinking / re-creating the lock file has its real effect) and the real FileLock is taken with timeout=0 on every grant; JSON, numpy and DataFrame caches; a vacuity counter '
-             'requires schedules in which a reader really sits inside a write window; sampled schedules are replayed twice.',
-        note='Threads stand in for processes (no shared Python state between callers). Steps between two visible operations are atomic. Preemption bound, not full interleaving space.',
+             'requires schedules in which a reader really sits inside a write window; sampled schedules are replayed twice. Process legs: the same harnesses are explored again with every caller in '
+             'its own forked process (ProcRun: each visible operation is announced over a pipe and performed after the scheduler process says go; the lock is the operating system\'s lock '
+             'between processes; nothing in Python is shared), bound 1-2 (quick) / 2-4 (thorough). The lock object handed to the library wraps whatever taskchain.cache.FileLock is in the tree under test.',
+        note='Steps between two visible operations are atomic. Preemption bound, not full interleaving space. Process legs use smaller bounds than thread legs.',
         design='DESIGN.md §4 C15', engine='sched'),
 })
 
@@ -285,7 +287,7 @@ def manifest():
 ENGINES = [
     {'name': 'procs', 'path': 'tcv/worker.py', 'serves_properties': ['C02'], 'kind_free_text': 'fresh-interpreter worker (chosen PYTHONHASHSEED) for real process boundaries'},
     {'name': 'fsops', 'path': 'tcv/fsops.py', 'serves_properties': ['C05', 'C20'], 'kind_free_text': 'file-system operation interposer: op log, in-situ crash injection, torn writes, tree-digest conformance'},
-    {'name': 'sched', 'path': 'tcv/sched.py', 'serves_properties': ['C15'], 'kind_free_text': 'cooperative thread scheduler with lock/file interposition and preemption-bounded stateless DFS'},
+    {'name': 'sched', 'path': 'tcv/sched.py', 'serves_properties': ['C15'], 'kind_free_text': 'cooperative scheduler (callers as threads or as forked processes) with lock/file interposition and preemption-bounded stateless DFS'},
     {'name': 'worlds', 'path': 'tcv/worlds.py, tcv/families.py', 'serves_properties': ['C01', 'C04'], 'kind_free_text': 'generated pipelines/configs/contexts with provenance terms, invocation log, fault plan'},
     {'name': 'refmodel', 'path': 'tcv/refmodel.py', 'serves_properties': ['C01', 'C04'], 'kind_free_text': 'independent reference semantics: mounts, precedence, edges, terms, frozen 1.4.0 key'},
     {'name': 'histories', 'path': 'tcv/histories.py', 'serves_properties': ['C01', 'C04'], 'kind_free_text': 'explicit-state BFS over operation histories with replay on fresh stores and canonical-state merging'},
